@@ -77,6 +77,18 @@ func C14(ctx *core.Ctx) int {
 	// or cache in the shared model)
 	progs = append(progs, matchPrograms()...)
 	progs = append(progs, checksumPrograms()...)
+	// the same graphs with their packets declared in the opposite order (the root last): whatever reorders or
+	// indexes the model's packet list is met with a list that is not already in "its" order
+	for _, p := range append(dsl.P5(), dsl.P6()...) {
+		if len(p.Packets) > 1 {
+			q := p.Clone()
+			for a, b := 0, len(q.Packets)-1; a < b; a, b = a+1, b-1 {
+				q.Packets[a], q.Packets[b] = q.Packets[b], q.Packets[a]
+			}
+			q.Name = p.Name + " (packets in reverse order)"
+			progs = append(progs, q)
+		}
+	}
 	p1 := dsl.P1()
 	for i, p := range p1 {
 		if ctx.Thorough() || i%6 == 0 || strings.Contains(p.Name, "match") || strings.Contains(p.Name, "lenof") {
